@@ -38,7 +38,7 @@ def run(ctx):
             outs.append(o)
             consts = dict(Seed=ctx.seed, Ciphers=q([ciph]), ModeSet=q(g), StreamLens=S(L["stream"]), BlockLens=S(L["block"]),
                           EcbLens=S(L["block"]), XtsLens=S(L["xts"]), HctrLens=S(L["hctr"]), CarryBs=S(L["carry"]), Cuts=S(L["cuts"]),
-                          MaxCalls=3, Bufs=S([]) if ctx.tier == "quick" else q(["ie", "ds"]), OutFile=core.tla_str(o))
+                          MaxCalls=3, Bufs=S([]) if ctx.tier == "quick" else q(["ie", "ds", "dl"]), OutFile=core.tla_str(o))
             jobs.append(dict(module="MC_C03", name="MC_C03_%s_%d" % (ciph, gi), view="View", constants=consts,
                              invariants=("TypeOK", "LenPreserved"), workers=4, timeout=3300))
     # small instance with the round-trip invariant (decrypt inverts encrypt, on the definitions; toy + sm4)
